@@ -67,6 +67,7 @@ def run(tier):
     cfgset = "CfgAll" if thorough else "CfgQuick"
     r = bc.tlc_with_cfg("MCBreaker", bc.gen_cfg_text([1], cfgset, False), "gen.cfg", workers=8, timeout=900)
     scripts, nstates = recovery_scripts(r, "rec")
+    scripts += bc.abort_variants(scripts)
     tp = bc.replay(binp, scripts, sd, "rec", timeout=1200)
     chk.cov["traces_validated_against_impl"] += len(scripts)
     chk.cov["reachable_states_probed"] = len(scripts)
